@@ -1,13 +1,13 @@
 CONSTANTS
   PathDot = "fixed"
   AnyQuote = "fixed"
-  DefaultVia = "to_url"
+  DefaultVia = "str"
   KeyDefaults = "count"
   Alpha = {97, 32, 37, 63, 35, 59, 43, 233, 8364, 10, 50, 46, 45}
   MaxText = 1
-  Shapes = {15, 16, 17, 18, 19, 20, 21}
-  ConvIds = {1, 2, 3, 4, 5, 6, 7, 8, 9, 10, 11, 13, 14, 15}
-  Binds = {11, 22, 82, 83, 52, 63}
+  Shapes = {22, 23, 24, 25}
+  ConvIds = {5, 8}
+  Binds = {11}
 INIT Init
 NEXT Next
 INVARIANT Laws
